@@ -722,6 +722,96 @@ def shard_c06(seed, idx, n_cases, deadline):
     return res
 
 
+BLOCK = 32768      # VerilogTokenizer reads the file in blocks of this many characters
+
+
+def straddle_texts(rng, text, n):
+    """long sources: the generated text behind a leading block comment whose length puts a chosen two-character
+    piece of the text (comment closer / opener, `//`, `(*`, `*)`, an escaped identifier, a string, `1'b`) - or the
+    closer of the leading comment itself - exactly across a multiple of the tokenizer's read block (offsets -2..+2).
+    A leading comment is white space: the design read must not change."""
+    marks = ["*/", "/*", "//", "(*", "*)", "\\", '"', "'b", ");", "`c", "`e"]
+    sites = []
+    for m in marks:
+        i = text.find(m)
+        while i >= 0 and len(sites) < 400:
+            sites.append((m, i))
+            i = text.find(m, i + 1)
+    out = []
+    for _ in range(n):
+        j = rng.choice([1, 1, 1, 2, 3, 5, 9])
+        delta = rng.randint(-2, 2)
+        if sites and rng.random() < 0.6:
+            m, i = rng.choice(sites)
+            # the boundary falls between character i and i+1 of the text (shifted by delta)
+            pad = BLOCK * j - (i + 1) + delta
+            what = "%s at %d*32768%+d" % (m, j, delta)
+        else:
+            # the closer of the leading comment itself: its `*` is the last character of a block (shifted by delta)
+            pad = BLOCK * j + 1 + delta            # pad = len("/*" + filler + "*/"); '*' of the closer at index pad-2
+            what = "closer of the leading comment at %d*32768%+d" % (j, delta)
+            i = None
+        while pad < 8:
+            pad += BLOCK
+        # many short comment / blank lines (a single huge comment makes the tokenizer quadratic), then one last block
+        # comment of 8..100 characters that brings the length to `pad`
+        tail_nl = "\n" if i is not None else ""
+        last = 8 + (pad - 8) % 80 if pad >= 88 else pad
+        lines = []
+        left = pad - last
+        while left > 0:
+            k = 80 if left >= 80 else left
+            r = rng.random()
+            if k < 6 or r < 0.15:
+                lines.append(" " * (k - 1) + "\n")
+            elif r < 0.5:
+                lines.append("//" + rng.choice(["x", "-", "=", "w"]) * (k - 3) + "\n")
+            else:
+                lines.append("/*" + rng.choice(["x", "-", "=", " ", "w"]) * (k - 5) + "*/\n")
+            left -= k
+        lead = "".join(lines) + "/*" + rng.choice(["x", "-", "w"]) * (last - 4 - len(tail_nl)) + "*/" + tail_nl
+        assert len(lead) == pad, (len(lead), pad)
+        out.append((what, lead + text))
+    return out
+
+
+def shard_long_c06(seed, idx, n_designs, deadline):
+    """a few LONG sources per run (33-300 kB): the tokenizer reads in blocks of 32768 characters; whatever sits across a
+    block boundary must be read as anywhere else.  P on the implementation against the denotation of the design; the
+    Lean lexer (length-independent) against the real tokenizer on the sources of one block."""
+    res = VShard()
+    rng = random.Random(stable_hash(["verilog", "C06-long", seed, idx]))
+    impl = Impl()
+    drv = lean.Driver("drv_verilog")
+    try:
+        for _ in range(n_designs):
+            if time.time() > deadline:
+                res.dist("stopped-at-deadline")
+                break
+            d, text = gen_case(rng, "C06")
+            pr0, _, _ = eval_c06(impl, d, text)
+            if pr0:
+                continue                                      # the short text is shard_c06's business
+            for what, long_text in straddle_texts(rng, text, 6):
+                if time.time() > deadline:
+                    break
+                pr, v, nl = eval_c06(impl, d, long_text)
+                res.case(stable_hash(long_text), nontrivial=True)
+                res.dist("long-source:" + what.split(" at ")[0].split(" of ")[0])
+                res.dist("long-source:%d-kB" % (len(long_text) // 1024 // 32 * 32))
+                if pr:
+                    inp = {"kind": "design", "design": d, "text": long_text}
+                    res.spec_failure("sdn.parse.long-source." + pr[0][0], inp,
+                                     "the same design behind a leading comment of %d characters (%s): %s"
+                                     % (len(long_text) - len(text), what, "; ".join("%s: %s" % p for p in pr[:3])))
+                if len(long_text) < 2 * BLOCK + 4096:
+                    corr_lex(res, drv, long_text, "long source", {"kind": "design", "design": d, "text": long_text})
+    finally:
+        drv.close()
+        impl.close()
+    return res
+
+
 # ----------------------------------------------------------------------------------------------
 # direct drives of the reader's building blocks (correspondence with the bit-level model)
 # ----------------------------------------------------------------------------------------------
@@ -1745,6 +1835,7 @@ def run(ctx):
         for i in range(nshards):
             args.append((shard_c06, (ctx.seed, i, per, deadline)))
         args.append((shard_blocks_reader, (ctx.seed, 0, ctx.scale(400, 8000), deadline)))
+        args.append((shard_long_c06, (ctx.seed, 0, ctx.scale(6, 60), deadline)))
         files = bundled_texts(ctx.scale(330_000, 4_000_000))
         args.append((shard_bundled_c06, (ctx.seed, 0, files[0::2], deadline, ctx.tier)))
         args.append((shard_bundled_c06, (ctx.seed, 1, files[1::2], deadline, ctx.tier)))
@@ -1769,7 +1860,7 @@ def run(ctx):
         before = ctx.evaluations
         extra = []
         for (fn, a) in args:
-            if fn in (shard_c06, shard_blocks_reader):
+            if fn in (shard_c06, shard_blocks_reader, shard_long_c06):
                 extra.append((fn, (a[0] + 7919, a[1], a[2] * 3, dl2)))
             elif fn is shard_c04:
                 extra.append((fn, (a[0] + 7919, a[1], a[2] * 3, dl2, a[4])))
@@ -1787,7 +1878,7 @@ def _describe(ctx):
     if ctx.pid == "C06":
         ctx.rule = ("abstract designs (1-7 modules in shuffled order incl. use before declaration, ANSI or header-only ports, "
                     "wire ranges [msb:lsb] with lsb 0..5, module ports based at 0, every connection expression shape and width "
-                    "<= port width, named and positional maps, escaped identifiers, comments, `celldefine primitives (the directives indented, followed on their line by blanks / tabs / a `//` or a closed `/* */` comment, or on the line of the preceding `endmodule`), "
+                    "<= port width, named and positional maps, escaped identifiers, comments, `celldefine primitives (the directives indented, followed on their line by blanks / tabs / a `//` or a closed `/* */` comment, or on the line of the preceding `endmodule`), a few LONG sources per run (33-300 kB: the same text behind leading comment lines whose length puts a comment closer / opener, `//`, `(*`, `*)`, an escaped identifier, a string or the closer of the leading comment exactly across a multiple of the tokenizer's 32768-character read block, offsets -2..+2), "
                     "never-declared black boxes instantiated by name or (several times) by position, concatenations whose end bits are the two ends "
                     "of one part-select with other bits in between, parameters (#( ) or defparam), (* *) attributes in one or several groups "
                     "per object with flags after valued keys, assigns, alias header ports over scalar nets, "
